@@ -20,6 +20,17 @@ func (s *Translator) previousValidFrame(partFrame *Frame) (*Frame, bool) {
 	return partFrame.Previous, true
 }
 
+// previousFrameSource resolves the frame that a step of the given part frame reads its bound identifiers from. The
+// direct predecessor of the first step of a multipart query part is the part's own frame, which is still being built
+// and can not be read from; the frame before it holds the bindings.
+func (s *Translator) previousFrameSource(partFrame *Frame) *Frame {
+	if previousFrame, hasPrevious := s.previousValidFrame(partFrame); hasPrevious {
+		return previousFrame
+	}
+
+	return partFrame.Previous
+}
+
 // previousFrameTraversalSource resolves the previous frame to comma-join as a FROM source for a traversal
 // step root. Steps flagged with OmitPreviousFrameSource resolve to no source so that references to the
 // enclosing frame stay correlated to the outer row rather than re-scanning the outer CTE.
